@@ -7,7 +7,11 @@
 (*      form), `stripped` (without witness) and `input` (what was parsed:      *)
 (*      the standard form, the stripped form with segwit disallowed, or the    *)
 (*      standard form plus unspents extension); parsing `input` gave `parsed`, *)
-(*      `punspents`; re-serialising that gave `reser`.                         *)
+(*      `punspents`; re-serialising that gave `reser`.  When `edited`: the      *)
+(*      owner then changed a field of the SAME object (which had already been   *)
+(*      asked for its ids) to give the fields `tx2`, and the object serialised  *)
+(*      itself to `bytes2` / `stripped2`: these are the forms of the current    *)
+(*      fields, and the ids of the current fields are printed for comparison.   *)
 (*   kind "bytes": only `input` (a real transaction from a test vector): the   *)
 (*      spec must parse it and re-serialise it byte for byte (fidelity).       *)
 (*   kind "ltc": Litecoin dialect.  pycoin cannot write Litecoin's MWEB-flagged *)
@@ -51,7 +55,8 @@ Verdict(end, px, flags, left) ==
      unspents |-> /\ Len(flags.unspents) = Len(T.punspents)
                   /\ \A i \in 1..Len(T.punspents) : UnspentOk(T.punspents[i], flags.unspents[i])
                   /\ T.hasus => flags.unspents = T.us,
-     reser    |-> (T.hasus /\ ~AllBound(T.us)) \/ T.reser = T.input]
+     reser    |-> (T.hasus /\ ~AllBound(T.us)) \/ T.reser = T.input,
+     edit     |-> ~T.edited \/ (IsTx(T.tx2) /\ Wire(T.tx2) = T.bytes2 /\ Stripped(T.tx2) = T.stripped2)]
   ELSE IF T.kind = "ltc" THEN
     [typed    |-> IsTx(T.tx),
      input    |-> T.input = WireLTC(T.tx, TRUE),
@@ -70,12 +75,16 @@ Verdict(end, px, flags, left) ==
      typed    |-> IsTx(px)]
 
 AllTrue(v) == \A f \in DOMAIN v : v[f]
+\* the ids of the fields after the owner's edit
+ShowIds2 == IF T.kind = "codec" /\ T.edited
+            THEN [txid2 |-> [op |-> "h256d", arg |-> Show(Stripped(T.tx2))], wtxid2 |-> [op |-> "h256d", arg |-> Show(Wire(T.tx2))]]
+            ELSE [edited |-> FALSE]
 
 TNext == /\ PNext /\ UNCHANGED tid
          /\ pc' \in Terminal =>
               LET v == Verdict(pc', ptx', pf', rest') IN
               IF AllTrue(v)
-              THEN PrintT(ToJson([k |-> "ids", tid |-> tid] @@ ShowIds(IF T.kind \in {"codec", "ltc"} THEN T.tx ELSE ptx')))
+              THEN PrintT(ToJson([k |-> "ids", tid |-> tid] @@ ShowIds(IF T.kind \in {"codec", "ltc"} THEN T.tx ELSE ptx') @@ ShowIds2))
               ELSE PrintT(ToJson([k |-> "rej", tid |-> tid, end |-> pc', failed |-> {f \in DOMAIN v : ~v[f]}]))
 TSpec == TInit /\ [][TNext]_tvars
 
